@@ -35,15 +35,26 @@ Proof.
     right. exists (Z.to_nat k), p. repeat split; auto. intros _. rewrite S. f_equal. lia.
 Qed.
 
-Lemma fl_resize_cases tab a src old new a1 op d : fl_resize tab a src old new = (a1, op, d) ->
-  (a1 = a /\ op = src /\ d = None /\ src <> None)
-  \/ (_allocate tab a new = (a1, op, d)
-      /\ match src with Some p => (nth (cls a p) tab 0 < new)%Z | None => True end).
+Lemma fl_resize_cases fixr tab a src old new a1 op d : fl_resize fixr tab a src old new = (a1, op, d) ->
+  (a1 = a /\ op = src /\ d = None /\ src <> None)                      (* the block is kept *)
+  \/ (a1 = a /\ op = None)                                              (* refused, or the repaired resize(0, x, 0) *)
+  \/ (exists idx p, pop_or_malloc a idx = (a1, p) /\ op = Some p /\ d = None
+                    /\ match src with
+                       | Some q => exists k, search_binary tab new = Some k /\ (0 <= k)%Z /\ idx = Z.to_nat k
+                                             /\ (nth (cls a q) tab 0 < new)%Z
+                       | None => True
+                       end).
 Proof.
-  unfold fl_resize. destruct src as [p|]; [|auto].
-  destruct (new <=? old)%Z; [intros H; injection H as <- <- <-; left; repeat split; congruence|].
-  destruct (Z.leb_spec new (nth (cls a p) tab 0%Z)) as [Ln|Gn]; [intros H; injection H as <- <- <-; left; repeat split; congruence|].
-  auto.
+  unfold fl_resize. destruct src as [q|].
+  - destruct (new <=? old)%Z; [intros H; injection H as <- <- <-; left; repeat split; congruence|].
+    destruct (Z.leb_spec new (nth (cls a q) tab 0%Z)) as [Ln|Gn]; [intros H; injection H as <- <- <-; left; repeat split; congruence|].
+    intros H. right. destruct (alloc_cases _ _ _ _ _ _ H) as [(-> & -> & _)|(k & p & S & K & E & -> & ->)]; [left; auto|].
+    right. exists (Z.to_nat k), p. repeat split; auto. exists k. auto.
+  - destruct fixr; intros H; right.
+    + destruct (fl_allocate_cases _ _ _ _ _ _ _ H) as [(-> & ->)|(idx & p & E & -> & -> & _)]; [left; auto|].
+      right. exists idx, p. auto.
+    + destruct (alloc_cases _ _ _ _ _ _ H) as [(-> & -> & _)|(k & p & S & K & E & -> & ->)]; [left; auto|].
+      right. exists (Z.to_nat k), p. auto.
 Qed.
 
 (* everything one call of pop_or_malloc establishes *)
@@ -89,22 +100,22 @@ Proof.
   injection X as <-. eapply pop_facts; eauto.
 Qed.
 
-Lemma prun_cons fixed0 tab s o ops :
-  prun fixed0 tab s (o :: ops) = prun fixed0 tab (fst (fst (pstep fixed0 tab s o))) ops.
+Lemma prun_cons fixed0 fixr tab s o ops :
+  prun fixed0 fixr tab s (o :: ops) = prun fixed0 fixr tab (fst (fst (pstep fixed0 fixr tab s o))) ops.
 Proof. reflexivity. Qed.
-Lemma prun_nil fixed0 tab s : prun fixed0 tab s [] = s.
+Lemma prun_nil fixed0 fixr tab s : prun fixed0 fixr tab s [] = s.
 Proof. reflexivity. Qed.
 
 (* ------------------------------------------------------------------ 1. run-level discipline *)
-(* no step of the run releases a pointer that is not handed out (double free / foreign pointer) *)
-Fixpoint pclean (fixed0 : bool) (tab : list Z) (s : pstate) (ops : list pop) : Prop :=
+(* auxiliary (weakest hypothesis the proofs need): no step of the run releases a pointer that is not handed out *)
+Fixpoint pcleanbf (fixed0 fixr : bool) (tab : list Z) (s : pstate) (ops : list pop) : Prop :=
   match ops with
   | [] => True
-  | o :: t => snd (pstep fixed0 tab s o) <> Some ABadFree /\ pclean fixed0 tab (fst (fst (pstep fixed0 tab s o))) t
+  | o :: t => snd (pstep fixed0 fixr tab s o) <> Some ABadFree /\ pcleanbf fixed0 fixr tab (fst (fst (pstep fixed0 fixr tab s o))) t
   end.
 
-Lemma pfree_step fixed0 tab s k :
-  pstep fixed0 tab s (PFree k)
+Lemma pfree_step fixed0 fixr tab s k :
+  pstep fixed0 fixr tab s (PFree k)
   = (mkP (fst (fl_desallocate (p_a s) (pslot s k))) (p_slots s), None, snd (fl_desallocate (p_a s) (pslot s k))).
 Proof. cbn [pstep]. destruct (fl_desallocate (p_a s) (pslot s k)); reflexivity. Qed.
 
@@ -114,21 +125,21 @@ Proof.
   apply existsb_exists in X. destruct X as [x [Hx Ex]]. apply Nat.eqb_eq in Ex. subst x. exact Hx.
 Qed.
 
-Lemma pstep_PInv fixed0 tab s o : PInv (p_a s) -> snd (pstep fixed0 tab s o) <> Some ABadFree ->
-  PInv (p_a (fst (fst (pstep fixed0 tab s o)))).
+Lemma pstep_PInv fixed0 fixr tab s o : PInv (p_a s) -> snd (pstep fixed0 fixr tab s o) <> Some ABadFree ->
+  PInv (p_a (fst (fst (pstep fixed0 fixr tab s o)))).
 Proof.
   intros P H. destruct o as [sz|k|k old new].
-  - cbn [pstep]. destruct (Pool_step_proof fixed0 tab (p_a s) sz P) as (AL & _).
+  - cbn [pstep]. destruct (Pool_step_proof fixed0 fixr tab (p_a s) sz P) as (AL & _).
     destruct (fl_allocate fixed0 tab (p_a s) sz) as [[a1 p] [d|]] eqn:E; cbn [fst p_a]; auto.
     destruct (AL _ _ _ eq_refl) as [I _]. exact I.
   - rewrite pfree_step in *. cbn [fst snd p_a] in *. destruct (pslot s k) as [p|]; [|exact P].
     apply badfree_in in H. destruct (desallocate_spec (p_a s) p P H) as (I & _). exact I.
-  - cbn [pstep]. destruct (Pool_step_proof fixed0 tab (p_a s) new P) as (_ & _ & RS).
-    destruct (fl_resize tab (p_a s) (pslot s k) old new) as [[a1 p] [d|]] eqn:E; cbn [fst p_a]; auto.
+  - cbn [pstep]. destruct (Pool_step_proof fixed0 fixr tab (p_a s) new P) as (_ & _ & RS).
+    destruct (fl_resize fixr tab (p_a s) (pslot s k) old new) as [[a1 p] [d|]] eqn:E; cbn [fst p_a]; auto.
     eapply RS; eauto.
 Qed.
 
-Lemma pstep_fresh fixed0 tab s o s2 p : PInv (p_a s) -> pstep fixed0 tab s o = (s2, Some p, None) ->
+Lemma pstep_fresh fixed0 fixr tab s o s2 p : PInv (p_a s) -> pstep fixed0 fixr tab s o = (s2, Some p, None) ->
   match o with PFree _ => False | PAlloc _ => True | PResize k _ _ => pslot s k <> Some p end ->
   ~ In p (a_out (p_a s)) /\ In p (a_out (p_a s2)) /\ (forall idx, ~ In p (tabfree (p_a s2) idx)) /\ NoDup (a_out (p_a s2)).
 Proof.
@@ -141,34 +152,34 @@ Proof.
   - destruct (fl_allocate fixed0 tab (p_a s) sz) as [[a1 q] [d|]] eqn:EA; [discriminate|].
     assert (q = Some p) by congruence. subst q. assert (s2 = mkP a1 (p_slots s ++ [Some p])) by congruence. subst s2.
     cbn [p_a]. apply K. eapply fl_allocate_some; eauto.
-  - destruct (fl_resize tab (p_a s) (pslot s k) old new) as [[a1 q] [d|]] eqn:ER; [discriminate|].
+  - destruct (fl_resize fixr tab (p_a s) (pslot s k) old new) as [[a1 q] [d|]] eqn:ER; [discriminate|].
     assert (q = Some p) by congruence. subst q. assert (s2 = mkP a1 (p_slots s ++ [Some p])) by congruence. subst s2.
-    cbn [p_a]. apply K. destruct (fl_resize_cases _ _ _ _ _ _ _ _ ER) as [(_ & X & _)|(EA & _)]; [congruence|].
-    eapply alloc_some; eauto.
+    cbn [p_a]. apply K. destruct (fl_resize_cases _ _ _ _ _ _ _ _ _ ER) as [(_ & X & _)|[(_ & X)|(idx & q & EP & X & _)]]; [congruence|discriminate|].
+    injection X as <-. eapply pop_facts; eauto.
 Qed.
 
-Lemma prun_clean fixed0 tab ops1 : forall s ops2, PInv (p_a s) -> pclean fixed0 tab s (ops1 ++ ops2) ->
-  PInv (p_a (prun fixed0 tab s ops1)) /\ pclean fixed0 tab (prun fixed0 tab s ops1) ops2.
+Lemma prun_clean fixed0 fixr tab ops1 : forall s ops2, PInv (p_a s) -> pcleanbf fixed0 fixr tab s (ops1 ++ ops2) ->
+  PInv (p_a (prun fixed0 fixr tab s ops1)) /\ pcleanbf fixed0 fixr tab (prun fixed0 fixr tab s ops1) ops2.
 Proof.
   induction ops1 as [|o t IH]; intros s ops2 P C.
   - rewrite prun_nil. auto.
-  - rewrite prun_cons. cbn [app pclean] in C. destruct C as [C1 C2]. apply IH; auto. apply pstep_PInv; auto.
+  - rewrite prun_cons. cbn [app pcleanbf] in C. destruct C as [C1 C2]. apply IH; auto. apply pstep_PInv; auto.
 Qed.
 
 (* at every point of every clean run: the address returned by allocate, or by a resize that does not return its
    source, was not handed out at that moment, and afterwards is handed out and on no free list *)
-Definition Pool_run_stmt := forall fixed0 tab ops1 o ops2,
-  pclean fixed0 tab pinit (ops1 ++ o :: ops2) ->
-  let s1 := prun fixed0 tab pinit ops1 in
+Definition Pool_run_bf_stmt := forall fixed0 fixr tab ops1 o ops2,
+  pcleanbf fixed0 fixr tab pinit (ops1 ++ o :: ops2) ->
+  let s1 := prun fixed0 fixr tab pinit ops1 in
   PInv (p_a s1)
-  /\ (forall s2 p, pstep fixed0 tab s1 o = (s2, Some p, None) ->
+  /\ (forall s2 p, pstep fixed0 fixr tab s1 o = (s2, Some p, None) ->
         match o with PFree _ => False | PAlloc _ => True | PResize k _ _ => pslot s1 k <> Some p end ->
         ~ In p (a_out (p_a s1)) /\ In p (a_out (p_a s2)) /\ (forall idx, ~ In p (tabfree (p_a s2) idx)) /\ NoDup (a_out (p_a s2))).
 
-Lemma Pool_run_proof : Pool_run_stmt.
+Lemma Pool_run_bf_proof : Pool_run_bf_stmt.
 Proof.
-  intros fixed0 tab ops1 o ops2 C s1.
-  destruct (prun_clean fixed0 tab ops1 pinit (o :: ops2) PInv_init C) as [P _]. fold s1 in P.
+  intros fixed0 fixr tab ops1 o ops2 C s1.
+  destruct (prun_clean fixed0 fixr tab ops1 pinit (o :: ops2) PInv_init C) as [P _]. fold s1 in P.
   split; [exact P|]. intros s2 p E G. eapply pstep_fresh; eauto.
 Qed.
 
@@ -202,15 +213,15 @@ Proof.
 Qed.
 
 (* ------------------------------------------------------------------ 3. exact accounting of outstanding blocks *)
-Definition pdelta (fixed0 : bool) (tab : list Z) (s : pstate) (o : pop) : Z :=
-  match o, pstep fixed0 tab s o with
+Definition pdelta (fixed0 fixr : bool) (tab : list Z) (s : pstate) (o : pop) : Z :=
+  match o, pstep fixed0 fixr tab s o with
   | PAlloc _, (_, Some _, None) => 1
   | PFree k, _ => match pslot s k with Some _ => -1 | None => 0 end
   | PResize k _ _, (_, Some p, None) => if option_nat_eqb (pslot s k) (Some p) then 0 else 1
   | _, _ => 0
   end%Z.
-Fixpoint pbalance (fixed0 : bool) (tab : list Z) (s : pstate) (ops : list pop) : Z :=
-  match ops with [] => 0%Z | o :: t => (pdelta fixed0 tab s o + pbalance fixed0 tab (fst (fst (pstep fixed0 tab s o))) t)%Z end.
+Fixpoint pbalance (fixed0 fixr : bool) (tab : list Z) (s : pstate) (ops : list pop) : Z :=
+  match ops with [] => 0%Z | o :: t => (pdelta fixed0 fixr tab s o + pbalance fixed0 fixr tab (fst (fst (pstep fixed0 fixr tab s o))) t)%Z end.
 
 (* the table is consistent with its search: the class found holds the request.  Needed because resize(p, ..) does
    not check that p is handed out: with an inconsistent table a moving resize of an already released p can pop p
@@ -238,8 +249,8 @@ Qed.
 Lemma in_snoc (q : nat) l x : In (Some q) (l ++ [x]) -> In (Some q) l \/ x = Some q.
 Proof. intros H. apply in_app_or in H. destruct H as [H|[H|[]]]; auto. Qed.
 
-Lemma pstep_slots fixed0 tab s o : PInv (p_a s) -> slots_ok s -> snd (pstep fixed0 tab s o) <> Some ABadFree ->
-  slots_ok (fst (fst (pstep fixed0 tab s o))).
+Lemma pstep_slots fixed0 fixr tab s o : PInv (p_a s) -> slots_ok s -> snd (pstep fixed0 fixr tab s o) <> Some ABadFree ->
+  slots_ok (fst (fst (pstep fixed0 fixr tab s o))).
 Proof.
   intros P SO H. unfold slots_ok in *. destruct o as [sz|k|k old new].
   - cbn [pstep]. destruct (fl_allocate fixed0 tab (p_a s) sz) as [[a1 op] [d|]] eqn:E; cbn [fst p_slots p_a]; intros q Hq;
@@ -252,16 +263,15 @@ Proof.
         destruct Hq as [Hq|Hq]; [auto|discriminate].
   - rewrite pfree_step. cbn [fst p_slots p_a]. intros q Hq. apply SO in Hq.
     destruct (pslot s k); cbn [fl_desallocate fst a_next]; exact Hq.
-  - cbn [pstep]. destruct (fl_resize tab (p_a s) (pslot s k) old new) as [[a1 op] d] eqn:E.
-    destruct (fl_resize_cases _ _ _ _ _ _ _ _ E) as [(-> & -> & -> & NN)|(EA & _)].
+  - cbn [pstep]. destruct (fl_resize fixr tab (p_a s) (pslot s k) old new) as [[a1 op] d] eqn:E.
+    destruct (fl_resize_cases _ _ _ _ _ _ _ _ _ E) as [(-> & -> & -> & NN)|[(-> & ->)|(idx & p & EP & -> & -> & _)]].
     + cbn [fst p_slots p_a]. intros q Hq. apply in_snoc in Hq. destruct Hq as [Hq|Hq]; [auto|].
       apply SO. eapply pslot_in; eauto.
-    + destruct (alloc_cases _ _ _ _ _ _ EA) as [(-> & -> & ND)|(kk & p & _ & _ & EP & -> & ->)].
-      * destruct d as [d|]; [|congruence]. cbn [fst p_slots p_a]. intros q Hq. apply in_snoc in Hq.
-        destruct Hq as [Hq|Hq]; [auto|discriminate].
-      * destruct (pop_facts _ _ _ _ P EP) as (_ & _ & _ & _ & M & L).
-        cbn [fst p_slots p_a]. intros q Hq. apply in_snoc in Hq.
-        destruct Hq as [Hq|Hq]; [apply SO in Hq; lia|]. injection Hq as <-. exact L.
+    + destruct d as [d|]; cbn [fst p_slots p_a]; intros q Hq; apply in_snoc in Hq;
+        (destruct Hq as [Hq|Hq]; [auto|discriminate]).
+    + destruct (pop_facts _ _ _ _ P EP) as (_ & _ & _ & _ & M & L).
+      cbn [fst p_slots p_a]. intros q Hq. apply in_snoc in Hq.
+      destruct Hq as [Hq|Hq]; [apply SO in Hq; lia|]. injection Hq as <-. exact L.
 Qed.
 
 Lemma remove1_length p l : In p l -> S (length (remove1 p l)) = length l.
@@ -270,10 +280,10 @@ Proof.
   destruct (Nat.eqb_spec p a) as [->|N]; [reflexivity|]. cbn [length]. f_equal. apply IH. destruct H; [congruence|auto].
 Qed.
 
-Lemma pstep_delta fixed0 tab s o : tab_holds tab -> PInv (p_a s) -> slots_ok s ->
-  snd (pstep fixed0 tab s o) <> Some ABadFree ->
-  Z.of_nat (length (a_out (p_a (fst (fst (pstep fixed0 tab s o))))))
-  = (Z.of_nat (length (a_out (p_a s))) + pdelta fixed0 tab s o)%Z.
+Lemma pstep_delta fixed0 fixr tab s o : tab_holds tab -> PInv (p_a s) -> slots_ok s ->
+  snd (pstep fixed0 fixr tab s o) <> Some ABadFree ->
+  Z.of_nat (length (a_out (p_a (fst (fst (pstep fixed0 fixr tab s o))))))
+  = (Z.of_nat (length (a_out (p_a s))) + pdelta fixed0 fixr tab s o)%Z.
 Proof.
   intros TH P SO H. destruct o as [sz|k|k old new]; unfold pdelta.
   - cbn [pstep]. destruct (fl_allocate fixed0 tab (p_a s) sz) as [[a1 op] [d|]] eqn:E; cbn [fst p_a]; [lia|].
@@ -283,79 +293,79 @@ Proof.
   - rewrite pfree_step in *. cbn [fst snd p_a] in *. destruct (pslot s k) as [p|]; [|cbn [fl_desallocate fst]; lia].
     apply badfree_in in H. destruct (desallocate_spec (p_a s) p P H) as (_ & O & _). rewrite O.
     pose proof (remove1_length p _ H). lia.
-  - cbn [pstep]. destruct (fl_resize tab (p_a s) (pslot s k) old new) as [[a1 op] d] eqn:E.
-    destruct (fl_resize_cases _ _ _ _ _ _ _ _ E) as [(-> & -> & -> & NN)|(EA & G)].
+  - cbn [pstep]. destruct (fl_resize fixr tab (p_a s) (pslot s k) old new) as [[a1 op] d] eqn:E.
+    destruct (fl_resize_cases _ _ _ _ _ _ _ _ _ E) as [(-> & -> & -> & NN)|[(-> & ->)|(idx & p & EP & -> & -> & G)]].
     + cbn [fst p_a]. destruct (pslot s k) as [q0|]; [|congruence]. cbn [option_nat_eqb]. rewrite Nat.eqb_refl. lia.
-    + destruct (alloc_cases _ _ _ _ _ _ EA) as [(-> & -> & ND)|(kk & p & S & K & EP & -> & ->)].
-      * destruct d as [d|]; [|congruence]. cbn [fst p_a]. lia.
-      * destruct (pop_facts _ _ _ _ P EP) as (_ & _ & O & _). cbn [fst p_a]. rewrite O. cbn [length].
-        assert (X : option_nat_eqb (pslot s k) (Some p) = false).
-        { destruct (pslot s k) as [q0|] eqn:Q; [|reflexivity]. cbn [option_nat_eqb].
-          destruct (Nat.eqb_spec q0 p) as [->|N]; [exfalso|reflexivity].
-          apply pslot_in in Q. apply SO in Q.
-          destruct (pop_class _ _ _ _ P EP) as (_ & B & _). destruct (B Q) as [B1 _].
-          pose proof (TH _ _ S K) as T. rewrite B1 in G. lia. }
-        rewrite X. lia.
+    + destruct d as [d|]; cbn [fst p_a]; lia.
+    + destruct (pop_facts _ _ _ _ P EP) as (_ & _ & O & _). cbn [fst p_a]. rewrite O. cbn [length].
+      assert (X : option_nat_eqb (pslot s k) (Some p) = false).
+      { destruct (pslot s k) as [q0|] eqn:Q; [|reflexivity]. cbn [option_nat_eqb].
+        destruct G as (kk & S & K & -> & G).
+        destruct (Nat.eqb_spec q0 p) as [->|N]; [exfalso|reflexivity].
+        apply pslot_in in Q. apply SO in Q.
+        destruct (pop_class _ _ _ _ P EP) as (_ & B & _). destruct (B Q) as [B1 _].
+        pose proof (TH _ _ S K) as T. rewrite B1 in G. lia. }
+      rewrite X. lia.
 Qed.
 
-Lemma balance_gen fixed0 tab : tab_holds tab -> forall ops s, PInv (p_a s) -> slots_ok s -> pclean fixed0 tab s ops ->
-  PInv (p_a (prun fixed0 tab s ops))
-  /\ Z.of_nat (length (a_out (p_a (prun fixed0 tab s ops))))
-     = (Z.of_nat (length (a_out (p_a s))) + pbalance fixed0 tab s ops)%Z.
+Lemma balance_gen fixed0 fixr tab : tab_holds tab -> forall ops s, PInv (p_a s) -> slots_ok s -> pcleanbf fixed0 fixr tab s ops ->
+  PInv (p_a (prun fixed0 fixr tab s ops))
+  /\ Z.of_nat (length (a_out (p_a (prun fixed0 fixr tab s ops))))
+     = (Z.of_nat (length (a_out (p_a s))) + pbalance fixed0 fixr tab s ops)%Z.
 Proof.
   intros TH. induction ops as [|o t IH]; intros s P SO C.
   - rewrite prun_nil. cbn [pbalance]. split; [exact P|lia].
-  - rewrite prun_cons. cbn [pclean] in C. destruct C as [C1 C2]. cbn [pbalance].
-    destruct (IH _ (pstep_PInv _ _ _ _ P C1) (pstep_slots _ _ _ _ P SO C1) C2) as [I L].
-    split; [exact I|]. rewrite L. rewrite (pstep_delta _ _ _ _ TH P SO C1). lia.
+  - rewrite prun_cons. cbn [pcleanbf] in C. destruct C as [C1 C2]. cbn [pbalance].
+    destruct (IH _ (pstep_PInv _ _ _ _ _ P C1) (pstep_slots _ _ _ _ _ P SO C1) C2) as [I L].
+    split; [exact I|]. rewrite L. rewrite (pstep_delta _ _ _ _ _ TH P SO C1). lia.
 Qed.
 
 (* the number of outstanding blocks is the sum of the observable deltas (a moving resize abandons its source block:
    +1); at quiescence every block ever malloc'ed is back on the free list of its own class *)
-Definition Pool_balance_stmt := forall fixed0 tab ops, tab_holds tab -> pclean fixed0 tab pinit ops ->
-  let s := prun fixed0 tab pinit ops in
-  Z.of_nat (length (a_out (p_a s))) = pbalance fixed0 tab pinit ops
+Definition Pool_balance_bf_stmt := forall fixed0 fixr tab ops, tab_holds tab -> pcleanbf fixed0 fixr tab pinit ops ->
+  let s := prun fixed0 fixr tab pinit ops in
+  Z.of_nat (length (a_out (p_a s))) = pbalance fixed0 fixr tab pinit ops
   /\ (a_out (p_a s) = [] -> forall p, p < a_next (p_a s) -> In p (tabfree (p_a s) (cls (p_a s) p))).
 
-Lemma Pool_balance_proof : Pool_balance_stmt.
+Lemma Pool_balance_bf_proof : Pool_balance_bf_stmt.
 Proof.
-  intros fixed0 tab ops TH C s.
+  intros fixed0 fixr tab ops TH C s.
   assert (SO : slots_ok pinit) by (intros q []).
-  destruct (balance_gen fixed0 tab TH ops pinit PInv_init SO C) as [I L]. fold s in I, L.
+  destruct (balance_gen fixed0 fixr tab TH ops pinit PInv_init SO C) as [I L]. fold s in I, L.
   split; [rewrite L; cbn [pinit p_a ainit a_out length]; lia|].
   intros E p Hp. destruct I as (_ & _ & _ & _ & P5). destruct (P5 p Hp) as [O|F]; [rewrite E in O; destruct O|exact F].
 Qed.
 
 (* the same on the table of the source *)
-Definition Pool_balance_tabsize_stmt := forall fixed0 ops, pclean fixed0 tabsize pinit ops ->
-  let s := prun fixed0 tabsize pinit ops in
-  Z.of_nat (length (a_out (p_a s))) = pbalance fixed0 tabsize pinit ops
+Definition Pool_balance_tabsize_bf_stmt := forall fixed0 fixr ops, pcleanbf fixed0 fixr tabsize pinit ops ->
+  let s := prun fixed0 fixr tabsize pinit ops in
+  Z.of_nat (length (a_out (p_a s))) = pbalance fixed0 fixr tabsize pinit ops
   /\ (a_out (p_a s) = [] -> forall p, p < a_next (p_a s) -> In p (tabfree (p_a s) (cls (p_a s) p))).
-Lemma Pool_balance_tabsize_proof : Pool_balance_tabsize_stmt.
-Proof. intros fixed0 ops C. exact (Pool_balance_proof fixed0 tabsize ops tab_holds_tabsize C). Qed.
+Lemma Pool_balance_tabsize_bf_proof : Pool_balance_tabsize_bf_stmt.
+Proof. intros fixed0 fixr ops C. exact (Pool_balance_bf_proof fixed0 fixr tabsize ops tab_holds_tabsize C). Qed.
 
 (* the quiescence clause alone needs no hypothesis on the table *)
-Definition Pool_quiescent_stmt := forall fixed0 tab ops, pclean fixed0 tab pinit ops ->
-  let s := prun fixed0 tab pinit ops in
+Definition Pool_quiescent_bf_stmt := forall fixed0 fixr tab ops, pcleanbf fixed0 fixr tab pinit ops ->
+  let s := prun fixed0 fixr tab pinit ops in
   a_out (p_a s) = [] -> forall p, p < a_next (p_a s) -> In p (tabfree (p_a s) (cls (p_a s) p)).
-Lemma Pool_quiescent_proof : Pool_quiescent_stmt.
+Lemma Pool_quiescent_bf_proof : Pool_quiescent_bf_stmt.
 Proof.
-  intros fixed0 tab ops C s E p Hp.
-  assert (C' : pclean fixed0 tab pinit (ops ++ [])) by (rewrite app_nil_r; exact C).
-  destruct (prun_clean fixed0 tab ops pinit [] PInv_init C') as [(_ & _ & _ & _ & P5) _]. fold s in P5.
+  intros fixed0 fixr tab ops C s E p Hp.
+  assert (C' : pcleanbf fixed0 fixr tab pinit (ops ++ [])) by (rewrite app_nil_r; exact C).
+  destruct (prun_clean fixed0 fixr tab ops pinit [] PInv_init C') as [(_ & _ & _ & _ & P5) _]. fold s in P5.
   destruct (P5 p Hp) as [O|F]; [rewrite E in O; destruct O|exact F].
 Qed.
 
 (* ------------------------------------------------------------------ 4. quiescence of the reference-counting layer *)
-Definition RC_quiescent_stmt := forall tab n ops, Forall (fun o => rop_target o < n) ops ->
-  let r := rrun tab (rinit n) ops in
+Definition RC_quiescent_stmt := forall fixrc tab n ops, Forall (fun o => rop_target o < n) ops -> rclean fixrc tab (rinit n) ops ->
+  let r := rrun fixrc tab (rinit n) ops in
   (forall i, i < n -> getq r i = None) ->
   a_out (rs_a r) = [] /\ (forall p, p < a_next (rs_a r) -> rcnt r p = 0%Z /\ In p (tabfree (rs_a r) (cls (rs_a r) p))).
 
 Lemma RC_quiescent_proof : RC_quiescent_stmt.
 Proof.
-  intros tab n ops F r Q. destruct (RInv_init n) as [I0 L0].
-  destruct (rrun_inv tab n ops _ I0 L0 F) as [(P & A & B & C) L]. fold r in P, A, B, C, L.
+  intros fixrc tab n ops F CL r Q. destruct (RInv_init n) as [I0 L0].
+  destruct (rrun_inv fixrc tab n ops _ I0 L0 F CL) as [(P & A & B & C) L]. fold r in P, A, B, C, L.
   assert (Z0 : forall p, nq (rs_q r) p = 0).
   { intros p. destruct (Nat.eq_dec (nq (rs_q r) p) 0) as [E|NE]; [exact E|exfalso].
     destruct (nq_pos_nth (rs_q r) p ltac:(lia)) as [i [Hi Ei]]. rewrite L in Hi. specialize (Q i Hi).
@@ -372,49 +382,132 @@ Qed.
 Definition ex_ops : list pop :=
   [PAlloc 24; PAlloc 40; PFree 0; PAlloc 24; PResize 1 40 100; PFree 1; PFree 2; PFree 3; PAlloc 0].
 
-Fixpoint pcleanb (fixed0 : bool) (tab : list Z) (s : pstate) (ops : list pop) : bool :=
+Fixpoint pcleanb (fixed0 fixr : bool) (tab : list Z) (s : pstate) (ops : list pop) : bool :=
   match ops with
   | [] => true
-  | o :: t => match snd (pstep fixed0 tab s o) with Some ABadFree => false | _ => pcleanb fixed0 tab (fst (fst (pstep fixed0 tab s o))) t end
+  | o :: t => match snd (pstep fixed0 fixr tab s o) with Some ABadFree => false | _ => pcleanb fixed0 fixr tab (fst (fst (pstep fixed0 fixr tab s o))) t end
   end.
-Lemma pcleanb_ok fixed0 tab ops : forall s, pcleanb fixed0 tab s ops = true -> pclean fixed0 tab s ops.
+Lemma pcleanb_ok fixed0 fixr tab ops : forall s, pcleanb fixed0 fixr tab s ops = true -> pcleanbf fixed0 fixr tab s ops.
 Proof.
-  induction ops as [|o t IH]; intros s H; cbn [pclean pcleanb] in *; [exact I|].
-  destruct (snd (pstep fixed0 tab s o)) as [[| |]|]; try discriminate; (split; [congruence|auto]).
+  induction ops as [|o t IH]; intros s H; cbn [pcleanbf pcleanb] in *; [exact I|].
+  destruct (snd (pstep fixed0 fixr tab s o)) as [[| |]|]; try discriminate; (split; [congruence|auto]).
 Qed.
 
-Example ex_clean : pclean true tabsize pinit ex_ops.
+Example ex_clean : pcleanbf true true tabsize pinit ex_ops.
 Proof. apply pcleanb_ok. vm_compute. reflexivity. Qed.
 
 (* slot 2 (the second allocate(24)) reuses the block released from slot 0; the moving resize of slot 1 abandons its
    source (balance 3 after five operations: slots 1, 2, 3), which must be released separately (PFree 1) *)
 Example ex_trace :
-  (p_slots (prun true tabsize pinit ex_ops),
-   pbalance true tabsize pinit (firstn 5 ex_ops),
-   pbalance true tabsize pinit ex_ops,
-   a_out (p_a (prun true tabsize pinit ex_ops)),
-   a_next (p_a (prun true tabsize pinit ex_ops)))
+  (p_slots (prun true true tabsize pinit ex_ops),
+   pbalance true true tabsize pinit (firstn 5 ex_ops),
+   pbalance true true tabsize pinit ex_ops,
+   a_out (p_a (prun true true tabsize pinit ex_ops)),
+   a_next (p_a (prun true true tabsize pinit ex_ops)))
   = ([Some 0; Some 1; Some 0; Some 2; None], 3%Z, 0%Z, [], 3).
 Proof. vm_compute. reflexivity. Qed.
 
 (* a double free is not clean *)
-Example ex_double_free : ~ pclean true tabsize pinit [PAlloc 24; PFree 0; PFree 0].
-Proof. cbn [pclean]. intros (_ & _ & H & _). apply H. vm_compute. reflexivity. Qed.
+Example ex_double_free : ~ pcleanbf true true tabsize pinit [PAlloc 24; PFree 0; PFree 0].
+Proof. cbn [pcleanbf]. intros (_ & _ & H & _). apply H. vm_compute. reflexivity. Qed.
 
 (* why Pool_balance needs tab_holds: with the empty table, resize(p, 0, 24) of the released p "moves" (24 > TabSize[..] = 0),
    pops p itself and returns its source: one block outstanding, observable balance 0 *)
 Example balance_needs_table :
   let ops := [PAlloc 24; PFree 0; PResize 0 0 24] in
-  pcleanb true [] pinit ops = true
-  /\ a_out (p_a (prun true [] pinit ops)) = [0]
-  /\ pbalance true [] pinit ops = 0%Z.
+  pcleanb true true [] pinit ops = true
+  /\ a_out (p_a (prun true true [] pinit ops)) = [0]
+  /\ pbalance true true [] pinit ops = 0%Z.
 Proof. vm_compute. auto. Qed.
 
 (* reference-counting layer: a run ending with every variable null *)
 Example ex_rc_quiescent :
   let ops := [QNew 0 16; QAssign 1 0; QResize 0 16 200; QFree 1; QAssignNull 0] in
-  let r := rrun tabsize (rinit 2) ops in
+  let r := rrun true tabsize (rinit 2) ops in
   Forall (fun o => rop_target o < 2) ops /\ (forall i, i < 2 -> getq r i = None).
 Proof.
   split; [repeat constructor|]. intros i Hi. destruct i as [|[|i]]; [vm_compute; reflexivity|vm_compute; reflexivity|lia].
+Qed.
+
+(* ------------------------------------------------------------------ the statements of Properties.v
+   pclean: no step of the run (a) releases a pointer that is not handed out (double free / foreign pointer: ABadFree) or
+   (b) requests size 0 through an entry point that indexes TabFree[-1] (AIndexMinus1: allocate(0) before f371523,
+   resize(0, x, 0) before frag/C17.fix-9.diff).  On such a step the CODE corrupts the static tables, the model only records
+   the defect and leaves the pool as it was: the theorems must not, and do not, claim anything about those runs.
+   A refused request (ATooBig: GivError thrown by search_binary before anything is touched) is faithful and allowed. *)
+Fixpoint pclean (fixed0 fixr : bool) (tab : list Z) (s : pstate) (ops : list pop) : Prop :=
+  match ops with
+  | [] => True
+  | o :: t => snd (pstep fixed0 fixr tab s o) <> Some ABadFree /\ snd (pstep fixed0 fixr tab s o) <> Some AIndexMinus1
+              /\ pclean fixed0 fixr tab (fst (fst (pstep fixed0 fixr tab s o))) t
+  end.
+Lemma pclean_bf fixed0 fixr tab ops : forall s, pclean fixed0 fixr tab s ops -> pcleanbf fixed0 fixr tab s ops.
+Proof. induction ops as [|o t IH]; intros s; cbn [pclean pcleanbf]; [auto|]. intros (A & _ & C). split; [exact A|apply IH; exact C]. Qed.
+
+Definition Pool_run_stmt := forall fixed0 fixr tab ops1 o ops2,
+  pclean fixed0 fixr tab pinit (ops1 ++ o :: ops2) ->
+  let s1 := prun fixed0 fixr tab pinit ops1 in
+  PInv (p_a s1)
+  /\ (forall s2 p, pstep fixed0 fixr tab s1 o = (s2, Some p, None) ->
+        match o with PFree _ => False | PAlloc _ => True | PResize k _ _ => pslot s1 k <> Some p end ->
+        ~ In p (a_out (p_a s1)) /\ In p (a_out (p_a s2)) /\ (forall idx, ~ In p (tabfree (p_a s2) idx)) /\ NoDup (a_out (p_a s2))).
+Lemma Pool_run_proof : Pool_run_stmt.
+Proof. intros fixed0 fixr tab ops1 o ops2 C. exact (Pool_run_bf_proof fixed0 fixr tab ops1 o ops2 (pclean_bf _ _ _ _ _ C)). Qed.
+
+Definition Pool_balance_stmt := forall fixed0 fixr tab ops, tab_holds tab -> pclean fixed0 fixr tab pinit ops ->
+  let s := prun fixed0 fixr tab pinit ops in
+  Z.of_nat (length (a_out (p_a s))) = pbalance fixed0 fixr tab pinit ops
+  /\ (a_out (p_a s) = [] -> forall p, p < a_next (p_a s) -> In p (tabfree (p_a s) (cls (p_a s) p))).
+Lemma Pool_balance_proof : Pool_balance_stmt.
+Proof. intros fixed0 fixr tab ops TH C. exact (Pool_balance_bf_proof fixed0 fixr tab ops TH (pclean_bf _ _ _ _ _ C)). Qed.
+
+Definition Pool_balance_tabsize_stmt := forall fixed0 fixr ops, pclean fixed0 fixr tabsize pinit ops ->
+  let s := prun fixed0 fixr tabsize pinit ops in
+  Z.of_nat (length (a_out (p_a s))) = pbalance fixed0 fixr tabsize pinit ops
+  /\ (a_out (p_a s) = [] -> forall p, p < a_next (p_a s) -> In p (tabfree (p_a s) (cls (p_a s) p))).
+Lemma Pool_balance_tabsize_proof : Pool_balance_tabsize_stmt.
+Proof. intros fixed0 fixr ops C. exact (Pool_balance_tabsize_bf_proof fixed0 fixr ops (pclean_bf _ _ _ _ _ C)). Qed.
+
+Definition Pool_quiescent_stmt := forall fixed0 fixr tab ops, pclean fixed0 fixr tab pinit ops ->
+  let s := prun fixed0 fixr tab pinit ops in
+  a_out (p_a s) = [] -> forall p, p < a_next (p_a s) -> In p (tabfree (p_a s) (cls (p_a s) p)).
+Lemma Pool_quiescent_proof : Pool_quiescent_stmt.
+Proof. intros fixed0 fixr tab ops C. exact (Pool_quiescent_bf_proof fixed0 fixr tab ops (pclean_bf _ _ _ _ _ C)). Qed.
+
+Fixpoint pcleansb (fixed0 fixr : bool) (tab : list Z) (s : pstate) (ops : list pop) : bool :=
+  match ops with
+  | [] => true
+  | o :: t => match snd (pstep fixed0 fixr tab s o) with
+              | Some ABadFree | Some AIndexMinus1 => false
+              | _ => pcleansb fixed0 fixr tab (fst (fst (pstep fixed0 fixr tab s o))) t end
+  end.
+Lemma pcleansb_ok fixed0 fixr tab ops : forall s, pcleansb fixed0 fixr tab s ops = true -> pclean fixed0 fixr tab s ops.
+Proof.
+  induction ops as [|o t IH]; intros s H; cbn [pclean pcleansb] in *; [exact I|].
+  destruct (snd (pstep fixed0 fixr tab s o)) as [[| |]|]; try discriminate; (split; [congruence|split; [congruence|auto]]).
+Qed.
+(* satisfiable: the run of ex_trace (incl. a refused request and the repaired allocate(0)) is clean *)
+Example ex_pclean : pclean true true tabsize pinit (ex_ops ++ [PAlloc 9000000; PResize 99 0 0]).
+Proof. apply pcleansb_ok. vm_compute. reflexivity. Qed.
+(* HISTORY / pending repair: with the body of GivMMFreeList::resize as it is (fixr = false) resize(0, x, 0) is NOT clean: the
+   code reads TabFree[-1] there (ASan: global-buffer-overflow); with frag/C17.fix-9.diff (fixr = true) it returns the null pointer *)
+Example resize_null_zero_as_is_not_clean :
+  ~ pclean true false tabsize pinit [PResize 0 0 0]
+  /\ pstep true false tabsize pinit (PResize 0 0 0) = (mkP ainit [None], None, Some AIndexMinus1)
+  /\ pstep true true tabsize pinit (PResize 0 0 0) = (mkP ainit [None], None, None).
+Proof. split; [cbn [pclean]; intros (_ & H & _); apply H; vm_compute; reflexivity|split; vm_compute; reflexivity]. Qed.
+(* HISTORY / pending repair: GivMMRefCount::resize of a sole owner to a size no class holds, body as it is (fixrc = false): after the
+   GivError the variable still holds p, but p is on the free list of its class with count 0 - the run is not rclean and RInv
+   fails; with frag/C17.fix-10.diff (fixrc = true) nothing has changed *)
+Example rc_resize_refused_as_is_refuted :
+  let ops := [QNew 0 16; QResize 0 16 9000000] in
+  let r := rrun false tabsize (rinit 1) ops in
+  let r' := rrun true tabsize (rinit 1) ops in
+  ~ rclean false tabsize (rinit 1) ops
+  /\ getq r 0 = Some 0 /\ In 0 (tabfree (rs_a r) (cls (rs_a r) 0)) /\ rcnt r 0 = 0%Z
+  /\ getq r' 0 = Some 0 /\ tabfree (rs_a r') (cls (rs_a r') 0) = [] /\ rcnt r' 0 = 1%Z.
+Proof.
+  split.
+  - cbn [rclean]. intros (_ & [H|H] & _); [discriminate|]. revert H. vm_compute. discriminate.
+  - vm_compute. repeat split; auto.
 Qed.
